@@ -19,6 +19,7 @@ import (
 	"errors"
 	"fmt"
 	"io"
+	"math"
 	"net/http"
 	"strconv"
 	"strings"
@@ -421,6 +422,14 @@ func restDecodeTimeout(timeout string) (time.Duration, error) {
 	val, err := strconv.ParseFloat(timeout, 64)
 	if err != nil {
 		return 0, fmt.Errorf("invalid timeout %q: %w", timeout, err)
+	}
+	if math.IsNaN(val) || val < 0 {
+		return 0, fmt.Errorf("invalid timeout %q", timeout)
+	}
+	const maxSeconds = float64(math.MaxInt64 / int64(time.Second))
+	if val > maxSeconds {
+		// beyond what a time.Duration can represent: clamp instead of overflowing
+		return time.Duration(math.MaxInt64), nil
 	}
 	return time.Duration(val * float64(time.Second)), nil
 }
